@@ -22,6 +22,7 @@ from datetime import datetime, timedelta, timezone
 
 from . import common
 from . import store_hist as sh
+from . import tieb_stores
 from .common import Check, sx
 from .evutil import BASE, dt, us_of_dt
 
@@ -368,15 +369,27 @@ def concretise(run, sop, univ, views, seen):
     raise ValueError(name)
 
 
-def run_history(backend, sym_ops, univ, tmpdir, n):
+def run_history(backend, sym_ops, univ, tmpdir, n, quiet_from=None):
+    """Calls at index >= quiet_from (an index into sym_ops) are made WITHOUT the dump after them (the dump
+    reads through get_events, which commits on sqlite): their step is [res, cache] only - the result and the
+    pure-Python bucket_instances dict -, handles are resolved against the last dump taken, and "final" holds
+    [listing, nrows, view...] taken once after the last call (harness/c05_quiet.py)."""
     run = Run(backend, tmpdir, n)
     try:
         views = run.dump(univ)
         seen = set()
         ops, steps = [], []
-        for sop in sym_ops:
+        quiet_at = None
+        for idx, sop in enumerate(sym_ops):
             op, obj = concretise(run, sop, univ, views, seen)
             if op is None:
+                continue
+            if quiet_from is not None and idx >= quiet_from:
+                if quiet_at is None:
+                    quiet_at = len(ops)
+                res = run.apply(op, obj)
+                ops.append(op)
+                steps.append([res, run.cache()])
                 continue
             res = run.apply(op, obj)
             views = run.dump(univ)
@@ -386,7 +399,11 @@ def run_history(backend, sym_ops, univ, tmpdir, n):
                 break                     # the store can no longer be described: the oracle reports it
             for v in views:
                 seen.update(sh.live_ids(v))
-        return {"ops": ops, "steps": steps}
+        out = {"ops": ops, "steps": steps}
+        if quiet_from is not None:
+            out["quiet_at"] = len(ops) if quiet_at is None else quiet_at
+            out["final"] = [run.listing(), run.nrows()] + run.dump(univ)
+        return out
     finally:
         run.close()
 
@@ -400,8 +417,9 @@ def _worker(args):
     out = []
     try:
         for n in range(lo, hi):
-            sym, univ = _WORK["hist"][n]
-            out.append({be: run_history(be, sym, univ, tmpdir, n) for be in sh.BACKENDS})
+            h = _WORK["hist"][n]
+            sym, univ, qf = h[0], h[1], (h[2] if len(h) > 2 else None)
+            out.append({be: run_history(be, sym, univ, tmpdir, n, qf) for be in sh.BACKENDS})
     finally:
         shutil.rmtree(tmpdir, ignore_errors=True)
     return lo, out
@@ -887,7 +905,7 @@ def describe(op):
 def main(argv=None):
     ck = Check("C05", argv)
     common.setup_impl_env()
-    ck.prove()
+    ck.prove(extra_targets=tieb_stores.STORES_DS[0], gen_kernels=tieb_stores.STORES_DS[1])   # ties A + B
     have_driver = ck.driver("ExC05")
 
     n_random = 700 if ck.tier == "quick" else 35000
@@ -897,7 +915,14 @@ def main(argv=None):
     ck.count("histories:lifecycle-corpus", len(corpus))
     ck.count("histories:bypassing-the-datastore", len(raws))
     ck.count("histories:random", n_random)
-    results = run_impl_batch(hists)
+    # second stream: histories whose tail is not read back call by call (harness/c05_quiet.py)
+    from . import c05_quiet as cq
+    qcorpus = cq.quiet_corpus()
+    qhists = qcorpus + [cq.gen_quiet(ck.rng) for _ in range(300 if ck.tier == "quick" else 15000)]
+    ck.count("histories:unread-tail-corpus", len(qcorpus))
+    ck.count("histories:unread-tail-random", len(qhists) - len(qcorpus))
+    all_results = run_impl_batch(hists + qhists)
+    results, qresults = all_results[:len(hists)], all_results[len(hists):]
 
     # --- the property statement on the implementation
     for (sym, univ), r in zip(hists, results):
@@ -933,12 +958,47 @@ def main(argv=None):
             ck.sample({"backend": "peewee", "history": [describe(o) for o in r["peewee"]["ops"][:14]],
                        "final": r["peewee"]["steps"][-1]})
 
+    # --- the property statement on the histories with an unread tail
+    for (sym, univ, qf), r in zip(qhists, qresults):
+        for be in sh.BACKENDS:
+            run = r[be]
+            qa = run["quiet_at"]
+            tail = run["ops"][qa:]
+            for op, step in zip(tail, run["steps"][qa:]):
+                name = DSNAME[op[0]] if op[0] != VIA else "Bucket." + HOPNAME[op[2][0]]
+                ck.count(f"{be}:unread:{name}:" + ("ok" if step[0][0] == 0 else sh.ERRNAME.get(step[0][1], "err")))
+            writes = [i for i, o in enumerate(tail) if cq.is_event_write(o)]
+            pend = bool(writes) and any(cq.is_bucket_level(o) for o in tail[writes[0] + 1:])
+            ck.note_case([be, "unread-tail", run["ops"]], nontrivial=pend)
+            ck.count(f"{be}:unread-tail-length-{len(tail):02d}")
+            if pend:
+                ck.count(f"{be}:unread-tails-with-a-bucket-level-call-after-a-pending-event-write")
+            verdict = cq.judge(run, univ)
+            if verdict is None:
+                continue
+            j, text = verdict
+            msym, mqf, mrun = sym, qf, run
+            small = cq.minimise(be, sym, univ, qf) if len(ck.violations) < 3 else None   # (a failing tree only)
+            if small is not None:
+                msym, mqf, mrun, (j, text) = small
+            mqa = mrun["quiet_at"]
+            ck.failing_input(f"C05:{be}:unread-tail:{cq.tag(text)[:60]}", f"{be}: {text}",
+                             {"backend": be, "history": [describe(o) for o in mrun["ops"]],
+                              "wire_ops": mrun["ops"], "universe": univ, "unread_from_call": mqa, "blamed_call": j,
+                              "results_of_the_unread_calls": [s[0] for s in mrun["steps"][mqa:]],
+                              "final_listing_nrows_views": mrun["final"], "strings": STR, "data": DATA,
+                              "how": "harness.c05.Run(backend, tmpdir, 0).apply(op) for each wire op, in order; after each "
+                                     "call before unread_from_call dump every bucket (Run.dump), from there on no read "
+                                     "at all, one Run.dump at the end (= harness.c05.run_history(..., quiet_from)); "
+                                     "SqliteStorage with the default enable_lazy_commit=True"})
+
     # --- correspondence with the model
     if have_driver:
-        flat = [(be, univ, r[be]["ops"]) for (sym, univ), r in zip(hists, results) for be in sh.BACKENDS]
+        allh = [(h[1], r) for h, r in zip(hists + qhists, all_results)]
+        flat = [(be, univ, r[be]["ops"]) for univ, r in allh for be in sh.BACKENDS]
         model = run_model_batch(flat)
         k = 0
-        for (sym, univ), r in zip(hists, results):
+        for univ, r in allh:
             for be in sh.BACKENDS:
                 mo = model[k]
                 k += 1
@@ -946,7 +1006,17 @@ def main(argv=None):
                 if mo is None or len(mo) != len(steps):
                     ck.disagreement(be, "driver could not decode the history", {"ops": r[be]["ops"]})
                     continue
+                if "final" in r[be] and steps and mo[-1][2:] != r[be]["final"] \
+                        and all(ms[:len(is_)] == is_ for ms, is_ in zip(mo, steps)):
+                    ck.disagreement(be, f"after {len(steps) - r[be]['quiet_at']} calls that were not read back: the model's "
+                                        f"final listing / row count / buckets and {be}'s differ",
+                                    {"backend": be, "history": [describe(o) for o in r[be]["ops"]],
+                                     "wire_ops": r[be]["ops"], "universe": univ, "unread_from_call": r[be]["quiet_at"],
+                                     "model": mo[-1][2:], "impl": r[be]["final"]})
+                    continue
                 for j, (ms, is_) in enumerate(zip(mo, steps)):
+                    if len(is_) == 2:
+                        ms = ms[:2]                  # a call that was not read back: result and cache only
                     if ms != is_:
                         ck.disagreement(be, f"call {j} {describe(r[be]['ops'][j])}: model and {be} differ",
                                         {"backend": be, "history": [describe(o) for o in r[be]["ops"][:j + 1]],
